@@ -18,11 +18,13 @@ META = {
             "design_ref": "DESIGN.md 6/C13", "note": NOTE, "technique": "TLA+ spec + TLC model checking + TLC trace validation of real executions"},
     "C19": {"text": mc("spec/cw20/Cw20.tla (owner listing, spender listing and point view as three variables; pre-0.14 start states)") + ". Formulas: the three views agree (invariant, from the migrate event on), migrate changes nothing but the spender listing.",
             "design_ref": "DESIGN.md 6/C19", "note": NOTE, "technique": "TLA+ spec + TLC model checking + TLC trace validation of real executions"},
+    "C04": {"text": "TLC exhaustive check of the transcribed decision function (spec/cw3/Cw3Threshold.tla) against the documented rule with explicit quantification over all completions of the outstanding votes, on a complete small domain (all totals <= MaxT, all splits, all count weights, a percentage/quorum grid, expired or not); plus trace validation: the harness calls the real cw3::Proposal::{is_passed,is_rejected,current_status} on the same complete domain and on boundary/random inputs at u64 magnitudes (operands logged as limbs), and TLC checks every recorded result (BigNat arithmetic for the large ones: exact for <= 9 decimals, within one vote and never stricter for 18).",
+            "design_ref": "DESIGN.md 6/C04", "note": NOTE, "technique": "TLA+ transcription + TLC complete small domain + TLC (BigNat) validation of recorded real-function results"},
 }
 
 NOT_APPLICABLE = {
     "C03": "check under construction in this session (cw3 specification not yet bound); will be claimed when its check exists",
-    "C04": "check under construction in this session", "C05": "check under construction in this session",
+    "C05": "check under construction in this session",
     "C06": "check under construction in this session", "C07": "check under construction in this session",
     "C08": "check under construction in this session", "C09": "check under construction in this session",
     "C10": "check under construction in this session", "C11": "check under construction in this session",
